@@ -16,6 +16,7 @@ THEOREMS = [
     'OpenHTF.Conf.c20_undeclared_not_loaded_unless_allowed',
     'OpenHTF.Conf.c20_save_restore_exact',
     'OpenHTF.Conf.c20_reset_drops_loaded_keeps_flags',
+    'OpenHTF.Conf.c20_reset_idempotent',
     'OpenHTF.Conf.c20_no_redeclare',
     'OpenHTF.Conf.c20_no_setattr',
     'OpenHTF.Conf.c20_decl_monotone',
@@ -107,7 +108,14 @@ def _apply(conf, cfgmod, holders, op, trace):
     _, kvs = op
     conf.load_flag_values(argparse.Namespace(config_value=['%s=%s' % (KEYS[k], YAML[v]) for k, v in kvs]))
   elif kind == 'R':
-    conf.reset()
+    try:
+      conf.reset()
+    except cfgmod.ConfigurationInvalidError:
+      res = 'raised'
+  elif kind == 'CF':
+    # the process was started with --config-file: argparse hands over an OPEN file, read again by every reset()
+    import yaml
+    conf._flags.config_file = io.StringIO(yaml.safe_dump({KEYS[k]: POOL[v] for k, v in op[1]}))
   elif kind == 'A':
     _, k, v = op
     try:
@@ -241,8 +249,8 @@ def _tup(op):
     return ('S', op[1], [tuple(x) for x in op[2]], [_tup(i) for i in op[3]], op[4])
   if op[0] == 'L':
     return ('L', op[1], op[2], [tuple(x) for x in op[3]], op[4])
-  if op[0] == 'F':
-    return ('F', [tuple(x) for x in op[1]])
+  if op[0] in ('F', 'CF'):
+    return (op[0], [tuple(x) for x in op[1]])
   return tuple(op)
 
 
@@ -256,6 +264,8 @@ def _enc_op(op):
     return 'F %d %s' % (len(op[1]), ' '.join('%d %d' % tuple(x) for x in op[1]))
   if k == 'R':
     return 'R'
+  if k == 'CF':
+    return 'CF %d %s' % (len(op[1]), ' '.join('%d %d' % tuple(x) for x in op[1]))
   if k == 'A':
     return 'A %d %d' % (op[1], op[2])
   if k == 'S':
@@ -327,6 +337,11 @@ def _rand_op(rng, depth=0):
 
 def gen_cases(rng, tier):
   cases = list(CORPUS)
+  # --config-file: its values come back with every reset()
+  for kvs in ([[0, 2]], [[0, 2], [3, 1]], []):
+    for tail in ([['R']], [['R'], ['R']], [['R'], ['L', True, False, [[0, 4]], 'dict'], ['R'], ['R']],
+                 [['L', True, False, [[0, 4]], 'dict'], ['R'], ['F', [[0, 3]]], ['R']]):
+      cases.append({'ops': [['D', 0, 1, False], ['D', 1, None, False], ['CF', kvs]] + tail})
   # a function decorated long before it is called, and called twice
   early = ['S', False, [[0, 4]], [['L', True, False, [[1, 0]], 'dict']], 'early']
   for pre in ([], [['D', 0, 1, False], ['D', 1, 2, False], ['L', True, False, [[0, 2], [1, 3]], 'dict']]):
